@@ -44,6 +44,14 @@ var DataVariants = [][]Chunk{
 	{{DirC2S, []byte("a")}, {DirS2C, []byte("a")}, {DirC2S, []byte("b")}},
 	{{DirS2C, []byte("b")}, {DirC2S, []byte("a")}, {DirS2C, []byte("a")}},
 	{{DirC2S, []byte("aa")}, {DirS2C, []byte("bb")}},
+	// longer conversations for THEN chains of 4-5 elements
+	{{DirC2S, []byte("a")}, {DirS2C, []byte("a")}, {DirC2S, []byte("b")}, {DirS2C, []byte("b")}},
+	{{DirC2S, []byte("a")}, {DirS2C, []byte("a")}, {DirC2S, []byte("b")}, {DirS2C, []byte("b")}, {DirC2S, []byte("a")}, {DirS2C, []byte("b")}},
+	{{DirC2S, []byte("ab")}, {DirS2C, []byte("ab")}, {DirC2S, []byte("ba")}, {DirS2C, []byte("ba")}},
+	{{DirC2S, []byte("aabb")}, {DirS2C, []byte("bbaa")}},
+	{{DirS2C, []byte("b")}, {DirC2S, []byte("a")}, {DirC2S, []byte("a")}, {DirS2C, []byte("a")}, {DirC2S, []byte("b")}, {DirS2C, []byte("b")}, {DirC2S, []byte("b")}},
+	{{DirC2S, []byte("abab")}, {DirS2C, []byte("abab")}, {DirC2S, []byte("abab")}},
+	{{DirC2S, []byte("a")}, {DirC2S, []byte("b")}, {DirC2S, []byte("a")}, {DirC2S, []byte("b")}, {DirC2S, []byte("a")}},
 }
 
 func Groups() map[string]*Group {
@@ -107,12 +115,17 @@ func Groups() map[string]*Group {
 		}
 		add(t, v...)
 	}
-	var data []func(*Rec)
-	for _, d := range DataVariants {
+	var data, dataLong []func(*Rec)
+	for i, d := range DataVariants {
 		d := d
-		data = append(data, func(r *Rec) { r.Reps[""] = d })
+		if i < 14 {
+			data = append(data, func(r *Rec) { r.Reps[""] = d })
+		}
+		dataLong = append(dataLong, func(r *Rec) { r.Reps[""] = d })
 	}
 	add("data", data...)
+	// datalong adds the longer conversations needed by THEN chains of 4-5 elements
+	add("datalong", dataLong...)
 	return g
 }
 
